@@ -1673,3 +1673,120 @@ Section RO.
       congruence.
   Qed.
 End RO.
+
+Lemma lookup_exhaustive V cmp (r : node V) m segs v :
+  wfn V r ->
+  (exists e vars, lookup V cmp r m segs v = Found e vars) \/
+  lookup V cmp r m segs v = E404 \/
+  (exists allow, lookup V cmp r m segs v = E405 allow).
+Proof.
+  intros Hwf. pose proof (lookup_no_panic V cmp r m segs v Hwf) as Hp.
+  destruct (lookup V cmp r m segs v) as [e vars| |allow|]; eauto. congruence.
+Qed.
+
+(* ---------------------------------------------------------------------- *)
+(* the conflict kinds named by C02, one lemma each                          *)
+Section Kinds.
+  Variable V : Type.
+  Variable cmp : V -> V -> comparison.
+  Notation conflicts := (conflicts V cmp).
+
+  Lemma tcompat_prefix pre : forall a b, no_wild pre = true -> tcompat (pre ++ a) (pre ++ b) = tcompat a b.
+  Proof.
+    induction pre as [|p pre IH]; intros a b Hn; [reflexivity|].
+    cbn [no_wild forallb] in Hn. apply andb_true_iff in Hn. destruct Hn as [Hp Hn].
+    destruct p as [s|x|x]; [| |discriminate]; cbn [app tcompat]; rewrite str_eqb_refl; cbn [andb]; apply IH; exact Hn.
+  Qed.
+
+  Lemma kind_clash_conflicts pre p1 p2 t1 t2 (e e' : endpoint V) :
+    no_wild pre = true -> kind_clash p1 p2 = true ->
+    conflicts (pre ++ p1 :: t1, e) (pre ++ p2 :: t2, e') = true.
+  Proof.
+    intros Hn Hk. apply conflicts_incompat. rewrite tcompat_prefix by exact Hn.
+    destruct p1, p2; cbn [kind_clash] in Hk; try discriminate; cbn [tcompat]; try reflexivity;
+      apply negb_true_iff in Hk; rewrite Hk; reflexivity.
+  Qed.
+
+  Lemma end_wild_conflicts pre x t (e e' : endpoint V) :
+    no_wild pre = true ->
+    conflicts (pre, e) (pre ++ PWild x :: t, e') = true /\
+    conflicts (pre ++ PWild x :: t, e) (pre, e') = true.
+  Proof.
+    intros Hn. split; apply conflicts_incompat.
+    - rewrite <- (app_nil_r pre) at 1. rewrite tcompat_prefix by exact Hn. reflexivity.
+    - rewrite <- (app_nil_r pre) at 2. rewrite tcompat_prefix by exact Hn. reflexivity.
+  Qed.
+
+  Lemma nodup_str_count l x : nodup_str l = true -> (length (filter (str_eqb x) l) <= 1)%nat.
+  Proof.
+    induction l as [|y l IH]; cbn [nodup_str filter length]; [lia|].
+    rewrite andb_true_iff, negb_true_iff. intros [Hy Hnd].
+    destruct (str_eqb_spec x y) as [->|Hne]; cbn [length]; [|auto].
+    assert (H0 : length (filter (str_eqb y) l) = 0%nat).
+    { clear - Hy. induction l as [|z l IH]; [reflexivity|]. cbn [mem_str] in Hy.
+      apply orb_false_iff in Hy. destruct Hy as [Hz Hy]. cbn [filter]. rewrite Hz. auto. }
+    lia.
+  Qed.
+
+  Lemma repeated_var_not_wf t x : (count_var x t >= 2)%nat -> wf_template t = false.
+  Proof.
+    unfold count_var, wf_template. intros Hc.
+    destruct (nodup_str (vars_of t)) eqn:Hnd; [|reflexivity].
+    pose proof (nodup_str_count _ x Hnd). lia.
+  Qed.
+
+  Lemma after_wild_not_wf pre x p t : wf_template (pre ++ PWild x :: p :: t) = false.
+  Proof.
+    unfold wf_template. apply andb_false_iff. right.
+    induction pre as [|q pre IH]; [reflexivity|].
+    destruct q; cbn [app wild_only_last]; auto. destruct pre; reflexivity.
+  Qed.
+End Kinds.
+
+Section Hist.
+  Variable V : Type.
+  Variable cmp : V -> V -> comparison.
+  Variable bot : V.
+  Hypothesis TO : total_order V cmp bot.
+
+  Lemma overlap_conflicts t (e e' : endpoint V) v :
+    wf_range V cmp (e_versions e) -> wf_range V cmp (e_versions e') ->
+    same_method (e_method e) (e_method e') = true ->
+    vmatches V cmp (e_versions e) (Some v) = true ->
+    vmatches V cmp (e_versions e') (Some v) = true ->
+    conflicts V cmp (t, e) (t, e') = true.
+  Proof.
+    intros W W' Hm M M'. unfold RouterSpec.conflicts. cbn [fst snd].
+    rewrite (proj2 (tpl_eqb_eq t t) eq_refl), Hm.
+    rewrite (shared_overlaps V cmp bot TO _ _ v W' W M' M). apply orb_true_r.
+  Qed.
+
+  Lemma accepted_unambiguous (eps : list (decl V)) r d1 d2 m segs v b1 b2 :
+    build V cmp eps = Ok r -> version_ok V cmp eps v ->
+    In d1 eps -> In d2 eps ->
+    serves V cmp d1 m segs v = Some b1 -> serves V cmp d2 m segs v = Some b2 -> d1 = d2.
+  Proof.
+    intros Hb. pose proof (build_spec V cmp eps) as Hs. rewrite Hb in Hs. destruct Hs as (Hok & _).
+    apply (dispatch_unique V cmp bot TO eps d1 d2 m segs v b1 b2 Hok).
+  Qed.
+End Hist.
+
+Lemma history_from V cmp (hist : list (list pseg * endpoint V)) :
+  forall st : list (list pseg * endpoint V) * node V,
+  build V cmp (fst st) = Ok (snd st) ->
+  let st' := fold_left (fun st d => match insert V cmp (snd st) d with
+                                    | Ok r' => (fst st ++ [d], r')
+                                    | Err _ => st
+                                    end) hist st in
+  build V cmp (fst st') = Ok (snd st') /\ table_ok V cmp (fst st').
+Proof.
+  induction hist as [|d hist IH]; intros st Hst; cbn [fold_left]; cbn zeta.
+  - split; [exact Hst|]. pose proof (build_spec V cmp (fst st)) as Hs. rewrite Hst in Hs. tauto.
+  - apply IH. cbn beta. pose proof (register_spec V cmp (fst st) (snd st) d Hst) as Hr.
+    destruct (insert V cmp (snd st) d) as [r'|err]; cbn [fst snd]; [exact (proj2 Hr)|exact Hst].
+Qed.
+
+Lemma history_invariant V cmp (hist : list (decl V)) :
+  let st := register_history V cmp hist in
+  build V cmp (fst st) = Ok (snd st) /\ table_ok V cmp (fst st).
+Proof. apply (history_from V cmp hist (@nil (list pseg * endpoint V), @empty_node V)). reflexivity. Qed.
